@@ -155,6 +155,10 @@ fn do_validate<'a>(
     env: &'a RefCell<Environment<StdoutWrapper, StderrWrapper>>,
 ) -> bool {
     println!("Validating {}", file);
+    // Each file gets its own assertion results. The environment is shared by
+    // all the files of one invocation so a failure in an earlier file must not
+    // leak into the verdict or the log of this one.
+    env.borrow_mut().assert_results = build::AssertCollector::new();
     match build_file(file, true, strict, import_paths, env) {
         Ok(b) => {
             if b.assert_results() {
